@@ -5,9 +5,13 @@
       [parse_q]    : [f32::from_str] + the tests [== 0.0] / [== 1.0] made on its result,
       [parse_mime] : [Mime::from_str],
       [enc]        : the encoders (algorithm, level, body),
-    so it holds for the real ones whatever they do; only [lossless] assumes something about [enc]
+    so it holds for the real ones whatever they do; only [lossless_partial] assumes something about [enc]
     (a decoder inverts it and its output is never empty) — that part is validated on every run by
-    the standard decoders of flate2 / brotli / zstd, not proved (partial). *)
+    the standard decoders of flate2 / brotli / zstd, not proved (partial).
+
+    The model describes kvarn after the repairs 7270dfd (OWS in list_header), 46abfcf / fb022d9 / 1fc432a
+    (refusal of identity: under the floor and for opted-out handlers, "*;q=0", any case) and ec0a225 (memo
+    cells written once across threads); what each repaired is kept as a [_v0_refuted] theorem. *)
 From KV Require Import Bytes RustInt Range Negotiate NegotiateProofs ListHeaderProofs.
 Open Scope N_scope.
 
@@ -42,20 +46,32 @@ Section C06.
     ~ (forall q, In (alg_name a, q) (header_values parse_q ae) -> q = QZero).
   Proof. exact (never_refused_l parse_q parse_mime enc). Qed.
 
-  (** [identity;q=0]: once past the opt-out / size floor, identity is never sent to a client that
-      lists identity with quality 0.0.  ([*;q=0] is not interpreted and the floor comes first: see the
-      examples [star_is_not_interpreted] and [floor_beats_refusal] below.) *)
-  Theorem identity_refusal_honoured : forall c ae o r c',
-    cr_compress c = true -> In (s_identity, QZero) (header_values parse_q ae) ->
-    clone c ae o = (r, c') -> forall l b, r <> Sent l b Identity.
-  Proof. exact (identity_refusal_l parse_q parse_mime enc). Qed.
+  (** What "the client forbids identity" means, read off the parsed list (RFC 7231 5.3.4): identity — in any
+      case — listed with quality 0.0, or identity not listed at all and "*" listed with quality 0.0. *)
+  Theorem refuses_identity_iff : forall values,
+    disable_identity values = true <->
+    ((exists v, In (v, QZero) values /\ lower v = s_identity) \/
+     (In (s_star, QZero) values /\ forall v q, In (v, q) values -> lower v <> s_identity)).
+  Proof. exact disable_identity_iff. Qed.
 
-  (** Body under 50 bytes or handler opted out: the identity body, labelled [identity]
-      (unlabelled when empty), whatever the client sent; no memo cell is touched. *)
-  Theorem floors : forall body ct compress ae o,
+  (** Identity is never sent to a client that forbids it: whatever the body (also under 50 bytes), the
+      handler's preference (also opted out) and the content type. *)
+  Theorem identity_refusal_honoured : forall c ae o r c',
+    disable_identity (header_values parse_q ae) = true ->
+    clone c ae o = (r, c') -> forall l b, r <> Sent l b Identity.
+  Proof.
+    intros c ae o r c' H. apply disable_identity_iff in H. exact (identity_refusal_l parse_q parse_mime enc c ae o r c' H).
+  Qed.
+
+  (** Body under 50 bytes or handler opted out: never a compressed body and no memo cell touched — the
+      identity body, labelled [identity] (for an empty body: the headers as the handler set them), or 406
+      for a client that forbids identity. *)
+  Theorem floors : forall body ct hce compress ae o,
     (length body < 50)%nat \/ compress = false ->
-    clone (cresp_new body ct compress) ae o =
-    (Sent (match body with [] => None | _ => Some s_identity end) body Identity, cresp_new body ct compress).
+    clone (cresp_new body ct hce compress) ae o =
+    (if disable_identity (header_values parse_q ae) then NotAcceptable
+     else Sent (match body with [] => hce | _ => Some s_identity end) body Identity,
+     cresp_new body ct hce compress).
   Proof. exact (floors_l parse_q parse_mime enc). Qed.
 
   (** Content type absent, unparsable or filtered by [do_compress]: never a compressed body — the
@@ -63,44 +79,74 @@ Section C06.
   Theorem floors_content_type : forall c ae o r c',
     compressible parse_mime c = false -> clone c ae o = (r, c') ->
     c' = c /\ (r = NotAcceptable \/
-               r = Sent (match cr_body c with [] => None | _ => Some s_identity end) (cr_body c) Identity).
+               r = Sent (match cr_body c with [] => cr_hce c | _ => Some s_identity end) (cr_body c) Identity).
   Proof. exact (floors_ctype_l parse_q parse_mime enc). Qed.
 
   (** The label names exactly the coding whose bytes are sent: identity <-> the identity body,
       algorithm a <-> an output of a's encoder on the identity body, which is also what a's memo
-      cell holds afterwards; the label is omitted only for an empty body. *)
+      cell holds afterwards; for an empty body no label is set (the handler's own headers stay). *)
   Theorem label_matches_body : forall c ae o l b ch c',
     cells_ok enc c -> clone c ae o = (Sent l b ch, c') ->
-    l = match b with [] => None | _ => Some (coding_name ch) end /\
+    l = match b with [] => cr_hce c | _ => Some (coding_name ch) end /\
     match ch with
     | Identity => b = cr_body c /\ c' = c
     | Alg a => (exists level, b = enc a level (cr_body c)) /\ cell_get a c' = Some b
     end /\
-    cells_ok enc c' /\ cr_body c' = cr_body c /\ cr_compress c' = cr_compress c /\ cr_ctype c' = cr_ctype c.
+    cells_ok enc c' /\ cr_body c' = cr_body c /\ cr_compress c' = cr_compress c /\ cr_ctype c' = cr_ctype c /\
+    cr_hce c' = cr_hce c.
   Proof. exact (label_matches_body_l parse_q parse_mime enc). Qed.
+
+  (** A content-encoding header set by the handler itself never reaches the client with a non-empty body:
+      the label is the one of the coding chosen here (the handler's bytes are the identity body). *)
+  Theorem handler_coding_overwritten : forall c ae o l b ch c',
+    clone c ae o = (Sent l b ch, c') -> b <> [] -> l = Some (coding_name ch).
+  Proof. exact (handler_coding_overwritten_l parse_q parse_mime enc). Qed.
 
   (** A filled cell is what every later request of that algorithm gets (no second encoder run). *)
   Theorem memoised_bytes_reused : forall a level c b, cell_get a c = Some b -> get_alg enc a level c = (b, c).
   Proof. exact (get_alg_memo enc). Qed.
 
-  (** Losslessness over every history of requests of a page, cached or not, from a cold cache:
-      each reply is 406 or decodes — with the decoder of the algorithm its label names — to the
-      page's body.  PARTIAL: relative to the two hypotheses on the encoders. *)
+  (** ... inside [handle_cache]: a reply flagged as memoised carries exactly the bytes an earlier request left in
+      the entry's cell, and the cell still holds them afterwards. *)
+  Theorem memoised_reply : forall pg e rq r e',
+    handle parse_q parse_mime enc pg e rq = (r, e') -> was_memoised e rq r = true ->
+    exists c a l b, visible e (fst rq) = Some c /\ r = Sent l b (Alg a) /\ cell_get a c = Some b /\
+                    exists c', e' = Some c' /\ cell_get a c' = Some b.
+  Proof. exact (memoised_reply_l parse_q parse_mime enc). Qed.
+
+  (** Every reply of every history of a page (any status, GET / HEAD / other methods, cached or not, single
+      requests and groups of concurrent ones, from a cold cache) is one the specification [spec_verdict]
+      allows: 406 exactly when it has to be, identity only if not forbidden, a coding only if the server may
+      compress this page and the client lists the coding with a non-zero quality. *)
+  Theorem serve_meets_spec : forall pg groups,
+    Forall2 (fun g rs => Forall (fun r => reply_allowed (spec_verdict parse_q parse_mime pg (snd (fst g))) r = true) (map fst rs))
+            groups (serve_groups parse_q parse_mime enc pg None groups).
+  Proof. exact (serve_meets_spec_l parse_q parse_mime enc). Qed.
+
+  (** Losslessness over every such history: each reply is 406 or decodes — with the decoder of the algorithm its
+      label names — to the page's body.  PARTIAL: relative to the two hypotheses on the encoders.  ([hce_harmless]:
+      a handler that sets content-encoding on an EMPTY body keeps that header, as a HEAD-like response should.) *)
   Theorem lossless_partial : forall dec : alg -> bytes -> bytes,
     (forall a level b, dec a (enc a level b) = b) -> (forall a level b, enc a level b <> []) ->
-    forall pg reqs,
-      Forall (fun r => r = NotAcceptable \/
-                       exists l b ch, r = Sent l b ch /\ decode_label dec l b = Some (pg_body pg))
-             (serve parse_q parse_mime enc pg None reqs).
+    forall pg groups,
+      (pg_body pg <> [] \/ pg_hce pg = None \/ pg_hce pg = Some s_identity) ->
+      Forall (fun rs => Forall (fun r => r = NotAcceptable \/
+                                         exists l b ch, r = Sent l b ch /\ decode_label dec l b = Some (pg_body pg))
+                               (map fst rs))
+             (serve_groups parse_q parse_mime enc pg None groups).
   Proof. exact (lossless_l parse_q parse_mime enc). Qed.
 
-  (** 406 <=> past the floor/opt-out, identity listed with quality 0.0, and nothing else applies
-      (content type not compressible, or none of zstd / br / gzip listed with non-zero quality). *)
+  (** 406 <=> the client forbids identity and nothing else applies: the response is not compressed at all (under
+      the floor, opted out, content type not compressible) or none of zstd / br / gzip is listed with non-zero quality. *)
   Theorem not_acceptable_iff : forall c ae o,
     fst (clone c ae o) = NotAcceptable <->
-    cr_compress c = true /\ In (s_identity, QZero) (header_values parse_q ae) /\
-    (compressible parse_mime c = false \/ forall a, contains (header_values parse_q ae) (alg_name a) = false).
-  Proof. exact (not_acceptable_iff_l parse_q parse_mime enc). Qed.
+    disable_identity (header_values parse_q ae) = true /\
+    (cr_compress c = false \/ compressible parse_mime c = false \/
+     forall a, contains (header_values parse_q ae) (alg_name a) = false).
+  Proof.
+    intros c ae o. rewrite (disable_identity_iff (header_values parse_q ae)).
+    exact (not_acceptable_iff_l parse_q parse_mime enc c ae o).
+  Qed.
 
   (** Which algorithm: the preferred one whenever the client lists it, otherwise zstd, br, gzip. *)
   Theorem preference_order : forall p cz cb cg,
@@ -130,11 +176,11 @@ Section C06.
   Proof. intros h. exists (list_header parse_q h). split; [reflexivity|apply list_header_length_l]. Qed.
 End C06.
 
-(** The memo cell ([UnsafeCell<Option<Bytes>>]: check; compute; check-and-write; read) under every
-    sequentially consistent interleaving of n tasks inside the same [get_x], from an empty or a filled
-    cell: the cell only ever holds a value satisfying P (instantiate P b := b = enc a level body), and
-    every task that has returned returned such a value — never the unwrap panic.  The unsynchronised
-    write is a data race in Rust's memory model; nothing is claimed about weaker executions. *)
+(** The memo cell ([tokio::sync::OnceCell<Bytes>], [get_or_init]: fast-path check; take the permit; compress;
+    store and give the permit up; read) under every interleaving of n tasks inside the same [get_x], from an
+    empty or a filled cell: the cell only ever holds a value satisfying P (instantiate P b := b = enc a level
+    body), and every task that has returned returned such a value — never a panic.  (Before fix ec0a225: an
+    [UnsafeCell] with a separate check and write, see [memo_double_write_v0_refuted].) *)
 Theorem memo_invariant : forall (P : bytes -> Prop) (vals : list bytes) (n : nat) (cell : option bytes) (sched : list nat),
   (forall i, (i < n)%nat -> P (nth i vals [])) -> (forall b, cell = Some b -> P b) ->
   let st := mrun vals (minit cell n) sched in
@@ -142,14 +188,35 @@ Theorem memo_invariant : forall (P : bytes -> Prop) (vals : list bytes) (n : nat
   (forall i r, nth_error (m_pcs st) i = Some (PDone r) -> exists b, r = Ok b /\ P b).
 Proof. intros P vals n cell sched Hv Hc. exact (memo_invariant_l P vals n Hv cell sched Hc). Qed.
 
-Theorem memo_write_once : forall vals sched st b, m_cell st = Some b -> m_cell (mrun vals st sched) = Some b.
+(** written once: whatever the cell holds at some point of a run it holds for the rest of the run *)
+Theorem memo_write_once : forall vals n cell sched1 sched2 b,
+  m_cell (mrun vals (minit cell n) sched1) = Some b -> m_cell (mrun vals (minit cell n) (sched1 ++ sched2)) = Some b.
 Proof. exact memo_write_once_l. Qed.
 
-(** no task waits for another: four turns complete a task, so every fair schedule completes all *)
+(** no deadlock, termination: after any schedule either every task has returned or some task can move (a task
+    waiting for the permit cannot, the one holding it can), and every move uses up one of the 4n steps there are *)
 Theorem memo_completes : forall vals cell n sched,
-  (forall i, (i < n)%nat -> (4 <= count_occ Nat.eq_dec sched i)%nat) ->
-  forallb pc_done (m_pcs (mrun vals (minit cell n) sched)) = true.
+  let st := mrun vals (minit cell n) sched in
+  (total_left (minit cell n) = 4 * n)%nat /\
+  (forallb pc_done (m_pcs st) = true \/
+   exists i st', mstep vals st i = Some st' /\ (total_left st' < total_left st)%nat).
 Proof. exact memo_completes_l. Qed.
+
+(** kvarn 0.6.3 ([UnsafeCell<Option<Bytes>>], second check and write not one step) with tasks on different worker
+    threads: two tasks both see the empty cell at their second check and both write; the bytes task 0 has already
+    returned are not the ones the cell holds in the end (and the first buffer is dropped by [Option::replace]
+    while references into the cell are out).  Replayed on the real code (component neg.stress: 2-3 replies in
+    a million carry another buffer than the first reply). *)
+Theorem memo_double_write_v0_refuted :
+  exists vals sched1 sched2 b b',
+    b <> b' /\
+    m0_cell (mrun0 vals (minit0 2) sched1) = Some b /\
+    nth_error (m0_pcs (mrun0 vals (minit0 2) sched1)) 0 = Some (P0Done (Ok b)) /\
+    m0_cell (mrun0 vals (minit0 2) (sched1 ++ sched2)) = Some b'.
+Proof.
+  exists [B "a"; B "b"], [0; 1; 0; 1; 0; 1; 0; 0; 0]%nat, [1]%nat, (B "a"), (B "b").
+  split; [discriminate|]. vm_compute. repeat split; reflexivity.
+Qed.
 
 (** kvarn 0.6.3 before the repair (values and quality texts not trimmed): a header of the grammar on
     which [list_header] is not the reference parse — the refused gzip gets quality 1.0. *)
@@ -162,10 +229,39 @@ Proof.
   split; [discriminate|]. split; [reflexivity|]. split; [vm_compute; discriminate|vm_compute; auto].
 Qed.
 
+(** kvarn 0.6.3 before the three repairs of the refusal of identity: to each a client that forbids identity
+    (in the sense of [refuses_identity_iff]) and is sent the identity body all the same. *)
+Definition html (n : N) : cresp := cresp_new (N.iter n (cons 97) []) (Some (B "text/html")) None true.
+Definition opts (p : pref) : options := mkOptions p 4 4 2.
+Notation clone_v := (clone_preferred_gen parse_q_dec parse_mime_std enc_tag).
+Notation values_std := (header_values parse_q_dec).
+
+(** a 49-byte body (under the floor): fix 46abfcf *)
+Theorem identity_refusal_floor_v0_refuted :
+  exists c ae o l b, disable_identity (values_std ae) = true /\
+                     fst (clone_v (mkFixes false true true) c ae o) = Sent l b Identity.
+Proof. exists (html 49), (Some (B "identity;q=0, gzip")), (opts PZstd). eexists. eexists. split; vm_compute; reflexivity. Qed.
+(** a handler that opted out: the same commit *)
+Theorem identity_refusal_optout_v0_refuted :
+  exists body ae o l b, (50 <= length body)%nat /\ disable_identity (values_std ae) = true /\
+    fst (clone_v (mkFixes false true true) (cresp_new body (Some (B "text/html")) None false) ae o) = Sent l b Identity.
+Proof.
+  exists (N.iter 60 (cons 97) []), (Some (B "identity;q=0")), (opts PZstd). eexists. eexists.
+  split; [vm_compute; repeat constructor|]. split; vm_compute; reflexivity.
+Qed.
+(** "*;q=0": fix fb022d9 *)
+Theorem identity_refusal_star_v0_refuted :
+  exists c ae o l b, disable_identity (values_std ae) = true /\
+                     fst (clone_v (mkFixes true false true) c ae o) = Sent l b Identity.
+Proof. exists (html 60), (Some (B "*;q=0")), (opts PZstd). eexists. eexists. split; vm_compute; reflexivity. Qed.
+(** "Identity;q=0": fix 1fc432a *)
+Theorem identity_refusal_case_v0_refuted :
+  exists c ae o l b, disable_identity (values_std ae) = true /\
+                     fst (clone_v (mkFixes true true false) c ae o) = Sent l b Identity.
+Proof. exists (html 60), (Some (B "Identity;q=0")), (opts PZstd). eexists. eexists. split; vm_compute; reflexivity. Qed.
+
 (* ------------------------------------------------------------------------------------ *)
 (** * Non-vacuity *)
-Definition opts (p : pref) : options := mkOptions p 4 4 2.
-Definition html (n : N) : cresp := cresp_new (N.iter n (cons 97) []) (Some (B "text/html")) true.
 Notation clone_std := (clone_preferred parse_q_dec parse_mime_std enc_tag).
 
 Example ex_chosen_preferred :
@@ -179,29 +275,63 @@ Proof. vm_compute. reflexivity. Qed.
 Example ex_406 :
   fst (clone_std (html 60) (Some (B "identity;q=0, deflate")) (opts PZstd)) = NotAcceptable.
 Proof. vm_compute. reflexivity. Qed.
-Example star_is_not_interpreted :
-  fst (clone_std (html 60) (Some (B "*;q=0")) (opts PZstd))
-  = Sent (Some (B "identity")) (cr_body (html 60)) Identity.
-Proof. vm_compute. reflexivity. Qed.
-Example floor_beats_refusal :
-  fst (clone_std (html 49) (Some (B "identity;q=0, gzip")) (opts PZstd))
-  = Sent (Some (B "identity")) (cr_body (html 49)) Identity.
-Proof. vm_compute. reflexivity. Qed.
+Example ex_star_refuses_identity :
+  fst (clone_std (html 60) (Some (B "*;q=0")) (opts PZstd)) = NotAcceptable /\
+  fst (clone_std (html 60) (Some (B "*;q=0, gzip")) (opts PZstd)) = Sent (Some (B "gzip")) (enc_tag Gzip 2 (cr_body (html 60))) (Alg Gzip) /\
+  fst (clone_std (html 60) (Some (B "*;q=0, identity;q=0.5")) (opts PZstd)) = Sent (Some (B "identity")) (cr_body (html 60)) Identity.
+Proof. vm_compute. repeat split; reflexivity. Qed.
+Example ex_refusal_beats_floor :
+  fst (clone_std (html 49) (Some (B "identity;q=0, gzip")) (opts PZstd)) = NotAcceptable /\
+  fst (clone_std (html 49) (Some (B "gzip")) (opts PZstd)) = Sent (Some (B "identity")) (cr_body (html 49)) Identity.
+Proof. vm_compute. split; reflexivity. Qed.
+Example ex_exotic_qualities :
+  fst (clone_std (html 60) (Some (B "gzip;q=0e0, br;q=-0, zstd;q=1e-50, identity;q=+0.0")) (opts PZstd)) = NotAcceptable /\
+  fst (clone_std (html 60) (Some (B "gzip;q=0e0, br;q=1e-3")) (opts PGzip)) = Sent (Some (B "br")) (enc_tag Br 4 (cr_body (html 60))) (Alg Br).
+Proof. vm_compute. split; reflexivity. Qed.
 Example ex_floor_50_compresses :
   fst (clone_std (html 50) (Some (B "gzip")) (opts PZstd))
   = Sent (Some (B "gzip")) (enc_tag Gzip 2 (cr_body (html 50))) (Alg Gzip).
 Proof. vm_compute. reflexivity. Qed.
 Example ex_image_not_compressed :
-  fst (clone_std (cresp_new (N.iter 60 (cons 97) []) (Some (B "image/png")) true) (Some (B "gzip")) (opts PZstd))
+  fst (clone_std (cresp_new (N.iter 60 (cons 97) []) (Some (B "image/png")) None true) (Some (B "gzip")) (opts PZstd))
   = Sent (Some (B "identity")) (N.iter 60 (cons 97) []) Identity.
 Proof. vm_compute. reflexivity. Qed.
+(** a handler that labels its body gzip itself: its bytes are the identity body, the label is replaced *)
+Example ex_handler_label_replaced :
+  fst (clone_std (cresp_new (N.iter 60 (cons 97) []) (Some (B "text/html")) (Some (B "gzip")) true) (Some (B "br")) (opts PZstd))
+  = Sent (Some (B "br")) (enc_tag Br 4 (N.iter 60 (cons 97) [])) (Alg Br) /\
+  fst (clone_std (cresp_new [] (Some (B "text/html")) (Some (B "gzip")) true) (Some (B "br")) (opts PZstd))
+  = Sent (Some (B "gzip")) [] Identity.
+Proof. vm_compute. split; reflexivity. Qed.
+Definition ex_page (status : N) : page :=
+  mkPage (N.iter 60 (cons 97) []) (Some (B "text/html")) None status true true (mkOptions PZstd 1 3 1) (opts PZstd).
 Example ex_memo_second_request :
-  let pg := mkPage (N.iter 60 (cons 97) []) (Some (B "text/html")) true true (mkOptions PZstd 1 3 1) (opts PZstd) in
-  serve parse_q_dec parse_mime_std enc_tag pg None [Some (B "identity"); Some (B "gzip"); Some (B "gzip, br")]
-  = [Sent (Some (B "identity")) (pg_body pg) Identity;
-     Sent (Some (B "gzip")) (enc_tag Gzip 2 (pg_body pg)) (Alg Gzip);
-     Sent (Some (B "br")) (enc_tag Br 4 (pg_body pg)) (Alg Br)].
+  serve_groups parse_q_dec parse_mime_std enc_tag (ex_page 200) None
+    [((MGet, Some (B "identity")), 1%nat); ((MHead, Some (B "gzip")), 1%nat); ((MGet, Some (B "gzip, br")), 1%nat);
+     ((MGet, Some (B "gzip")), 3%nat); ((MOther, Some (B "gzip")), 1%nat)]
+  = let b := pg_body (ex_page 200) in
+    [[(Sent (Some (B "identity")) b Identity, false)];
+     [(Sent (Some (B "gzip")) (enc_tag Gzip 2 b) (Alg Gzip), false)];
+     [(Sent (Some (B "br")) (enc_tag Br 4 b) (Alg Br), false)];
+     [(Sent (Some (B "gzip")) (enc_tag Gzip 2 b) (Alg Gzip), true); (Sent (Some (B "gzip")) (enc_tag Gzip 2 b) (Alg Gzip), true);
+      (Sent (Some (B "gzip")) (enc_tag Gzip 2 b) (Alg Gzip), true)];
+     [(Sent (Some (B "gzip")) (enc_tag Gzip 1 b) (Alg Gzip), false)]].
 Proof. vm_compute. reflexivity. Qed.
+(** a status that is not admitted to the cache (403): nothing is memoised; 404 is *)
+Example ex_status_and_cache :
+  map (map snd) (serve_groups parse_q_dec parse_mime_std enc_tag (ex_page 403) None
+                   [((MGet, Some (B "gzip")), 1%nat); ((MGet, Some (B "gzip")), 1%nat)]) = [[false]; [false]] /\
+  map (map snd) (serve_groups parse_q_dec parse_mime_std enc_tag (ex_page 404) None
+                   [((MGet, Some (B "gzip")), 1%nat); ((MGet, Some (B "gzip")), 1%nat)]) = [[false]; [true]].
+Proof. vm_compute. split; reflexivity. Qed.
+(** the specification: what it demands for the three kinds of answer *)
+Example ex_spec_verdicts :
+  let sv := spec_verdict parse_q_dec parse_mime_std (ex_page 200) in
+  sv (Some (B "identity;q=0, deflate")) = mkVerdict true false [] /\
+  sv (Some (B "identity;q=0, br, gzip;q=0")) = mkVerdict false false [Br] /\
+  sv (Some (B "gzip, zstd")) = mkVerdict false true [Zstd; Gzip] /\
+  sv None = mkVerdict false true [].
+Proof. vm_compute. repeat split; reflexivity. Qed.
 (** hypotheses of [lossless_partial] and [list_header_wf] are satisfiable *)
 Example ex_encoder_hypotheses :
   (forall a level b, dec_tag a (enc_tag a level b) = b) /\ (forall a level b, enc_tag a level b <> []).
@@ -215,9 +345,9 @@ Example ex_wf_members :
   forallb member_ok ms = true /\
   list_header parse_q_dec (members_text ms) = [(B "gzip", QZero); (B "br", QOne); (B "identity", QOther)].
 Proof. vm_compute. split; reflexivity. Qed.
-(** three tasks race on an empty cell: interleaved checks, two encoder runs, one write wins,
-    the third task finds the cell filled *)
+(** three tasks race on an empty cell: task 0 takes the permit, task 1 finds it taken and waits (its turns are
+    skipped), task 0 compresses and stores, tasks 2 and 1 find the cell filled *)
 Example ex_memo_race :
-  let st := mrun [B "v"; B "v"; B "v"] (minit None 3) [0; 1; 0; 1; 1; 0; 2; 0; 1; 2; 2]%nat in
-  m_cell st = Some (B "v") /\ m_pcs st = [PDone (Ok (B "v")); PDone (Ok (B "v")); PDone (Ok (B "v"))].
-Proof. vm_compute. split; reflexivity. Qed.
+  let st := mrun [B "v"; B "w"; B "x"] (minit None 3) [0; 1; 0; 1; 1; 0; 2; 0; 1; 2; 1]%nat in
+  m_cell st = Some (B "v") /\ m_pcs st = [PDone (Ok (B "v")); PDone (Ok (B "v")); PDone (Ok (B "v"))] /\ m_lock st = false.
+Proof. vm_compute. repeat split; reflexivity. Qed.
